@@ -364,7 +364,7 @@ def inline_fn(prog, f, no_inline=None):
 # (every element of a delivered/recovered batch reaches its sink).  `for x in it { body }` <-> `it.for_each(|x| body)` is the commonest
 # loop rewrite; without this the per-iteration rules would have to be written twice.
 FOR_EACH_HOSTS = (r"ReplicatedShardedState::<T>::apply_remote_deltas$", r"ReplicatedShardedState::<T>::apply_recovered_state$",
-                  r"simulator::multi_node::SimulatedNode::apply_remote_deltas$")
+                  r"simulator::multi_node::SimulatedNode::apply_remote_deltas$", r"anti_entropy::StateDigest::from_state$")
 
 
 def _splice_for_each(host, B, c, clo_local, it_local):
